@@ -1342,3 +1342,7 @@ func TestC06(t *testing.T) {
 		"material table never matching; base64 payload truncated; point mode omitted; joints written as float; each of the repair's comparisons reverted. A correct alignment repair (pad to 4 bytes after the indices) passes without the known finding.")
 	vh.Drive(t, vh.Spec[Case]{Name: "scene", Quick: 60000, Thorough: 1200000, Gen: genCase, Run: runCase})
 }
+
+func FuzzC06(f *testing.F) {
+	vh.Fuzz(f, vh.Spec[Case]{Name: "scene", Gen: genCase, Run: runCase})
+}
